@@ -185,9 +185,13 @@ def check_streams_composition(ctx, prog):
                 cb[k] = x
                 if tuple(cb) not in combos:
                     combos.append(tuple(cb))
-    for sh in itertools.product((0, 1), repeat=4):
+    unset = ("DEFAULT", 0, 0, 0)
+    cases = [(sh, combo, 0) for sh in itertools.product((0, 1), repeat=4) for combo in combos]
+    # start-up input given: only a stdin that resolves to a pipe is acceptable, whatever makes it resolve otherwise
+    cases += [(sh, (x, unset, unset), 1) for sh in itertools.product((0, 1), repeat=4) for x in per]
+    for sh, combo, data in cases:
         parent, discard, fsh, psh = sh
-        for combo in combos:
+        for _ in (0,):
             st = State()
             st.mon["nofail"] = True
             st.mem[p["options"]] = fs(("addr", O))
@@ -202,13 +206,13 @@ def check_streams_composition(ctx, prog):
             st.mem[("f", red, "discard")] = fs(discard)
             st.mem[("f", red, "file")] = fs(("str", "<shorthand file>")) if fsh else fs("NULL")
             st.mem[("f", red, "path")] = fs(("str", "<shorthand path>")) if psh else fs("NULL")
-            st.mem[("f", ("f", O, "input"), "data")] = fs("NULL")
-            st.mem[("f", ("f", O, "input"), "size")] = fs(0)
+            st.mem[("f", ("f", O, "input"), "data")] = fs(("str", "<data>")) if data else fs("NULL")
+            st.mem[("f", ("f", O, "input"), "size")] = I.pos() if data else fs(0)
             st.mem[("f", O, "fork")] = fs(0)
             st.mem[("f", O, "deadline")] = fs(0)
             st.mem[p["argv"]] = fs(("addr", ("i", AV, 0)))
             st.mem[("i", AV, 0)] = fs("PTR")
-            st.mon["case"] = (sh, combo)
+            st.mon["case"] = (sh, combo, data)
             states.append(st)
     res = I.run(F, states)
     ctx.stats("E-ABS", I.stats)
@@ -219,13 +223,15 @@ def check_streams_composition(ctx, prog):
     bad = 0
     shown = 0
     for st0 in states:
-        sh, combo = st0.mon["case"]
+        sh, combo, data = st0.mon["case"]
         parent, discard, fsh, psh = sh
         want = []
         for stream, (typ, h, f, pa) in zip(("IN", "OUT", "ERR"), combo):
             want.append(oracle_redirect(stream, typ, h, f, pa, parent, discard, 0 if stream == "IN" else fsh, 0 if stream == "IN" else psh))
         want_reject = any(w == ("reject",) for w in want)
-        outs = by.get((sh, combo), [])
+        if data and not want_reject and want[0][1] != "PIPE":
+            want_reject = True       # start-up input combined with a stdin that does not resolve to a pipe
+        outs = by.get((sh, combo, data), [])
         verdicts = set()
         for st, rv in outs:
             if rv == fs(EINVAL):
@@ -247,7 +253,8 @@ def check_streams_composition(ctx, prog):
             bad += 1
         if not ok or shown < 12:
             shown += 1
-            ctx.ob("C13.A2c", "parse_options [parent=%d discard=%d file=%d path=%d | in=%s out=%s err=%s]" % (sh + tuple("/".join(map(str, x)) for x in combo)),
+            ctx.ob("C13.A2c", "parse_options [parent=%d discard=%d file=%d path=%d | in=%s out=%s err=%s%s]" % (
+                   sh + tuple("/".join(map(str, x)) for x in combo) + (" | start-up input" if data else "",)),
                    "validating the whole options object gives, per stream, the documented verdict: shorthands parent/discard apply to all "
                    "three streams, file/path only to stdout and stderr", ok,
                    {"documented": "reject" if want_reject else [w[1] for w in want], "code": got}, nontrivial=True)
